@@ -227,7 +227,7 @@ func pathDepth(v ssa.Value, d int) string {
 	if v == nil {
 		return "<nil>"
 	}
-	if d > 12 {
+	if d > 40 {
 		return "…"
 	}
 	switch x := v.(type) {
@@ -251,6 +251,10 @@ func pathDepth(v ssa.Value, d int) string {
 		}
 		return "$free:" + x.Name()
 	case *ssa.Alloc:
+		// a cell written exactly once (captured parameter, range copy, spilled local) denotes the stored value
+		if sv := uniqueStored(x); sv != nil {
+			return "&" + pathDepth(sv, d+1)
+		}
 		if x.Comment != "" {
 			return "&" + x.Comment + "@" + posKey(x)
 		}
@@ -260,7 +264,7 @@ func pathDepth(v ssa.Value, d int) string {
 		case token.MUL:
 			inner := pathDepth(x.X, d+1)
 			if strings.HasPrefix(inner, "&") {
-				return "*" + inner
+				return inner[1:]
 			}
 			return inner // loads through field/global addresses are transparent
 		case token.ARROW:
@@ -510,4 +514,65 @@ func FlowsTo(src ssa.Value, isSink func(in ssa.Instruction, operand ssa.Value) b
 		}
 	}
 	return nil, false
+}
+
+// uniqueStored returns the single value ever stored into a local cell, if the cell has exactly one store
+// to itself (field stores into a struct cell do not count) and its address does not escape into calls.
+func uniqueStored(a *ssa.Alloc) ssa.Value {
+	var val ssa.Value
+	n := 0
+	for _, r := range Referrers(a) {
+		switch x := r.(type) {
+		case *ssa.Store:
+			if x.Addr == ssa.Value(a) {
+				n++
+				val = x.Val
+			}
+		}
+	}
+	if n == 1 {
+		return val
+	}
+	return nil
+}
+
+// RootedAt reports whether v is obtained from root by field selections, element indexing, loads and
+// copies through single-store local cells only (e.g. rows[i].ID from rows).
+func RootedAt(v, root ssa.Value) bool {
+	for i := 0; i < 20 && v != nil; i++ {
+		if v == root {
+			return true
+		}
+		switch x := v.(type) {
+		case *ssa.UnOp:
+			if x.Op != token.MUL {
+				return false
+			}
+			v = x.X
+		case *ssa.FieldAddr:
+			v = x.X
+		case *ssa.Field:
+			v = x.X
+		case *ssa.IndexAddr:
+			v = x.X
+		case *ssa.Index:
+			v = x.X
+		case *ssa.Alloc:
+			v = uniqueStored(x)
+		case *ssa.Phi:
+			var only ssa.Value
+			for _, e := range x.Edges {
+				if e != ssa.Value(x) {
+					if only != nil && only != e {
+						return false
+					}
+					only = e
+				}
+			}
+			v = only
+		default:
+			return false
+		}
+	}
+	return false
 }
